@@ -11,6 +11,16 @@
 (*   Start -> [for each zone on the path: Referral -> DS -> DNSKEY] ->     *)
 (*            Answer -> Reply                                              *)
 (*                                                                         *)
+(* Above the resolver sits the failover middleware (`fallbackservers`): a   *)
+(* SERVFAIL of the resolution may be answered by a configured fallback      *)
+(* resolver instead.  The case says whether one is configured and what it   *)
+(* answers (honest / lying); the Failover action is the reply rule the      *)
+(* statement implies (a validation verdict is final, only the failure to    *)
+(* OBTAIN an answer is retried elsewhere, and AD is sdns's own statement),  *)
+(* with FailoverRule = "asbuilt" as the negative twin (failover.go before   *)
+(* hooks/fix-failover-verdict.patch: every SERVFAIL is retried, the         *)
+(* fallback's AD bit is relayed).                                           *)
+(*                                                                         *)
 (* Each upstream response is an abstract record of the attributes RFC 4035 *)
 (* validation looks at; a tampering clears or forges exactly one of them.  *)
 (* The spec defines the only legal client outcomes ("truth or SERVFAIL")   *)
@@ -24,7 +34,9 @@ CONSTANTS ZoneKinds,   \* how the target zone hangs off its signed parent
           QKinds,      \* what is asked
           Tampers,     \* set of tamperings: functions [Positions -> kind], "none" where untouched
           Flags,       \* set of [do, ad, cd] client flag records
-          Anchors      \* set of BOOLEAN: is a trust anchor configured
+          Anchors,     \* set of BOOLEAN: is a trust anchor configured
+          Fallbacks,   \* subset of {"none", "honest", "lying"}: the configured fallback resolver
+          FailoverRule \* "statement" | negative twins: "asbuilt", "relayad" (verdicts final, the fallback's AD still relayed)
 
 (* target zone kinds *)
 \*  "signed"      DS at the parent, zone signed
@@ -40,14 +52,21 @@ CONSTANTS ZoneKinds,   \* how the target zone hangs off its signed parent
 (* tamper positions: "referral" (parent's DS / no-DS proof), "dnskey", "answer" *)
 (* tamper kinds: see Breaks below *)
 
-VARIABLES zone, qk, flags, tamper, anchor,   \* the case (chosen at Init)
+\* fallback resolver kinds
+\*  "none"    no `fallbackservers` entry: the failover middleware is inert
+\*  "honest"  a validating resolver whose OWN path to the authorities is clean: answers the zone's truth, AD=1 when
+\*            the chain is signed (one that saw the same tampered path would say SERVFAIL: nothing to relay)
+\*  "lying"   answers forged data with AD=1
+VARIABLES zone, qk, flags, tamper, anchor, fb,   \* the case (chosen at Init)
           pc,          \* resolver program counter
           dsState,     \* "unknown" | "secure" | "insecure" | "bogus"
           keyState,    \* "unknown" | "trusted" | "bogus" | "none"
-          ansState,    \* "unknown" | "secure" | "insecure" | "bogus"
-          reply        \* "none" | [rcode, data, ad, ede]
+          ansState,    \* "unknown" | "secure" | "insecure" | "bogus" | "lame" (no answer could be obtained)
+          cause,       \* why the resolution said SERVFAIL: "none" | "noanchor" | "bogus" (validation verdicts) | "unreach"
+          reply        \* "none" | [rcode, data, ad, ede, src]   src = who supplied it: "resolver" | "fallback"
 
-vars == <<zone, qk, flags, tamper, anchor, pc, dsState, keyState, ansState, reply>>
+case == <<zone, qk, flags, tamper, anchor, fb>>
+vars == <<case, pc, dsState, keyState, ansState, cause, reply>>
 
 ZoneSigned == zone \in {"signed", "signed-same", "nsec3"}
 Negative == qk \in {"nodata", "nx", "ent", "rootnx"}
@@ -95,6 +114,13 @@ K(pos) == tamper[pos]        \* the tampering applied at a position ("none" = un
    barenx    : the reply is replaced by rcode NXDOMAIN with EMPTY answer and authority sections (a denial with no
                proof at all) -> from a signed zone a denial needs its proof like any other
    bareempty : the same with rcode NOERROR (an empty NODATA)
+   lame      : (position answer) a FAULT, not a tampering of signed data: the server that holds the answer refuses the
+               question.  There is nothing to validate; the resolution fails for want of an answer ("unreach")
+               -> SERVFAIL, or - the one thing a fallback resolver is for - that resolver's answer, which sdns has
+               not validated and must not mark AD
+   ttlup     : (position answer) the TTL of the RRset and of its RRSIG raised in flight.  The TTL is not in the signed
+               form (the RRSIG's Original TTL stands in for it), so authenticity is intact: truth, AD.  RFC 4035 5.3.3
+               caps the TTL at the Original TTL; the statement does not (lifetimes are C04's): observation in the replay
    wildforeign : (question kinds "ent" and "whost") the same replayed expansion, "proved" by an UNSIGNED NSEC owned
                by the parent zone whose interval spans the whole child -> records outside the signer zone are
                never validated and must not count as the next-closer denial
@@ -103,16 +129,16 @@ BreaksSig(k) == k \in {"data", "sigbytes", "signer", "labels", "expired", "notye
 
 Init ==
   /\ zone \in ZoneKinds /\ qk \in QKinds /\ flags \in Flags /\ tamper \in Tampers
-  /\ anchor \in Anchors
+  /\ anchor \in Anchors /\ fb \in Fallbacks
   /\ pc = "start"
   /\ dsState = "unknown" /\ keyState = "unknown" /\ ansState = "unknown"
-  /\ reply = "none"
+  /\ cause = "none" /\ reply = "none"
 
 (* no trust anchor: fail closed before anything else (hasTrustAnchors checks) *)
 Start ==
   /\ pc = "start"
   /\ pc' = IF anchor \/ flags.cd THEN "referral" ELSE "fail"   \* CD=1: nothing is validated, data flows
-  /\ UNCHANGED <<zone, qk, flags, tamper, anchor, dsState, keyState, ansState, reply>>
+  /\ UNCHANGED <<case, dsState, keyState, ansState, cause, reply>>
 
 (* parent's referral: DS + RRSIG(DS), or a signed proof that no DS exists *)
 Referral ==
@@ -130,7 +156,7 @@ Referral ==
          (IF BreaksSig(k) \/ k \in {"strip", "dropproof", "foreignproof"} THEN "bogus"
           ELSE "insecure")
   /\ pc' = "dnskey"
-  /\ UNCHANGED <<zone, qk, flags, tamper, anchor, keyState, ansState, reply>>
+  /\ UNCHANGED <<case, keyState, ansState, cause, reply>>
 
 (* DNSKEY RRset of the zone, verified against the DS *)
 Dnskey ==
@@ -142,7 +168,7 @@ Dnskey ==
        ELSE IF BreaksSig(K("dnskey")) \/ K("dnskey") \in {"strip", "swapds", "roguekey"} THEN "bogus"
        ELSE "trusted"
   /\ pc' = "answer"
-  /\ UNCHANGED <<zone, qk, flags, tamper, anchor, dsState, ansState, reply>>
+  /\ UNCHANGED <<case, dsState, ansState, cause, reply>>
 
 (* the answer (or denial) itself *)
 Answer ==
@@ -150,6 +176,7 @@ Answer ==
   /\ LET k == K("answer") IN
      ansState' =
        IF keyState = "bogus" THEN "bogus"
+       ELSE IF k = "lame" THEN "lame"     \* the server refuses: no answer to validate or to relay
        ELSE IF keyState = "none" THEN     \* provably insecure zone: data accepted unsigned;
          "insecure"                       \* foreign answer records are dropped, not fatal (C07's filter)
        ELSE
@@ -160,24 +187,51 @@ Answer ==
           ELSE IF NeedsProof /\ k \in {"dropproof", "foreignproof"} THEN "bogus"
           ELSE "secure")
   /\ pc' = "reply"
-  /\ UNCHANGED <<zone, qk, flags, tamper, anchor, dsState, keyState, reply>>
+  /\ UNCHANGED <<case, dsState, keyState, cause, reply>>
 
 Truth == [rcode |-> IF qk \in {"nx", "rootnx"} THEN "nxdomain" ELSE "noerror", data |-> qk]
 
 (* handler + edns shaping: bogus => SERVFAIL (+EDE), AD discipline *)
 Reply ==
   /\ pc \in {"reply", "fail"}
+  /\ cause' = IF pc = "fail" THEN "noanchor"
+              ELSE IF ansState = "bogus" /\ ~flags.cd THEN "bogus"
+              ELSE IF ansState = "lame" THEN "unreach"
+              ELSE "none"
   /\ reply' =
-       IF pc = "fail" \/ (ansState = "bogus" /\ ~flags.cd)
-         THEN [rcode |-> "servfail", data |-> "none", ad |-> FALSE, ede |-> TRUE]
+       IF cause' # "none"
+         THEN [rcode |-> "servfail", data |-> "none", ad |-> FALSE, ede |-> TRUE, src |-> "resolver"]
          ELSE [rcode |-> Truth.rcode, data |-> Truth.data,
                ad |-> (ansState = "secure" /\ ~flags.cd /\ (flags.do \/ flags.ad)
                        /\ ~(zone = "optout" /\ Negative)),
-               ede |-> FALSE]
-  /\ pc' = "done"
-  /\ UNCHANGED <<zone, qk, flags, tamper, anchor, dsState, keyState, ansState>>
+               ede |-> FALSE, src |-> "resolver"]
+  /\ pc' = IF fb = "none" THEN "done" ELSE "failover"     \* no fallbackservers: the middleware passes every reply through
+  /\ UNCHANGED <<case, dsState, keyState, ansState>>
 
-Next == Start \/ Referral \/ Dnskey \/ Answer \/ Reply
+(* the failover middleware, between the cache and the resolver (failover.go ResponseWriter.WriteMsg): the resolver's
+   SERVFAIL may be replaced by the configured fallback resolver's answer.
+     "statement": a validation verdict ("bogus", "noanchor") IS the answer - "the client gets SERVFAIL ... never altered
+                  data", "the answer is SERVFAIL rather than unvalidated data"; only the failure to obtain an answer is
+                  retried, and what the fallback says carries no AD - "AD is set only when every RRset in the reply was
+                  validated up to a trust anchor"
+     "asbuilt"  : every SERVFAIL is retried and the fallback's AD bit is relayed (cleared only by the edns discipline)
+     "relayad"  : half a repair - verdicts are final, the fallback's AD bit is still relayed *)
+FallbackAnswer ==
+  IF fb = "honest" THEN [rcode |-> Truth.rcode, data |-> Truth.data, ad |-> AnswerSigned]
+                   ELSE [rcode |-> "noerror", data |-> "forged", ad |-> TRUE]
+Retried == /\ fb # "none" /\ reply.rcode = "servfail"
+           /\ (FailoverRule = "asbuilt" \/ cause = "unreach")
+Failover ==
+  /\ pc = "failover"
+  /\ reply' = IF Retried
+                THEN [rcode |-> FallbackAnswer.rcode, data |-> FallbackAnswer.data,
+                      ad |-> (FailoverRule \in {"asbuilt", "relayad"} /\ FallbackAnswer.ad /\ ~flags.cd /\ (flags.do \/ flags.ad)),
+                      ede |-> FALSE, src |-> "fallback"]
+                ELSE reply
+  /\ pc' = "done"
+  /\ UNCHANGED <<case, dsState, keyState, ansState, cause>>
+
+Next == Start \/ Referral \/ Dnskey \/ Answer \/ Reply \/ Failover
 
 Spec == Init /\ [][Next]_vars /\ WF_vars(Next)
 
@@ -189,7 +243,8 @@ Done == pc = "done"
    stripping signatures an unsigned zone never had -- is a no-op) *)
 EffectiveAt(pos) ==
   LET k == K(pos) IN
-  CASE k \in {"none", "clonetag"} -> FALSE
+  CASE k \in {"none", "clonetag", "ttlup"} -> FALSE
+    [] k = "lame" -> FALSE               \* a fault: nothing a validator looks at is changed (see Lame below)
     [] ~OnPath(pos) -> FALSE             \* the root answers the question: nothing below it is asked
     [] pos = "rootkey" -> TRUE           \* the root is signed in every configuration
     [] pos = "answer" /\ RootOnly -> k \notin {"wildrep", "wildforeign", "fakedname", "foreigndeny", "inject", "roguesig"} \* (built for zone.test. only)
@@ -210,10 +265,25 @@ Untampered == ~Effective
 PathSecure == anchor /\ AnswerSigned /\ Untampered
 PathInsecureProven == anchor /\ ~AnswerSigned /\ ~EffectiveAt("referral") /\ ~EffectiveAt("rootref") /\ ~EffectiveAt("rootkey")
 
+(* the answering server refuses the question: sdns reaches no validation verdict and has no data of its own *)
+Lame == K("answer") = "lame"
+
+(* NOT judged (stated here so that it is visible): after an availability failure the data is the fallback resolver's.
+   No response on the path was tampered with, sdns reached no verdict, and the operator designated that resolver as a
+   trusted source exactly like a forwarder; what it says is outside "tamperings of any upstream response on the
+   resolution path".  sdns's own statements about such a reply (AD) are judged below. *)
+FallbackTrusted == reply.src = "fallback" /\ cause = "unreach"
+
 (* the only legal outcomes with CD=0: SERVFAIL, or exactly what the signer published *)
 TruthOrServfail ==
   Done => \/ reply.rcode = "servfail"
           \/ (reply.rcode = Truth.rcode /\ reply.data = Truth.data)
+          \/ FallbackTrusted
+
+(* a validation verdict - bogus data, no trust anchor - is final: no other source may answer in its place
+   (RFC 4035 5.5: "the name server MUST return RCODE 2 to the originating client") *)
+VerdictIsFinal ==
+  (Done /\ cause \in {"bogus", "noanchor"}) => (reply.rcode = "servfail" /\ reply.src = "resolver")
 
 (* never altered data: a tampered path never yields a non-SERVFAIL reply toward a CD=0 client,
    unless the tampering leaves authenticity intact (a same-tag clone key) or hits an
@@ -223,7 +293,8 @@ NeverAlteredData ==
 
 (* AD only when everything validated, never toward CD, never without DO or AD in the query *)
 ADImpliesSecure ==
-  (Done /\ reply.ad) => (PathSecure /\ ~flags.cd /\ (flags.do \/ flags.ad))
+  (Done /\ reply.ad) => (PathSecure /\ ~flags.cd /\ (flags.do \/ flags.ad)
+                         /\ reply.src = "resolver" /\ ansState = "secure")    \* validated HERE, not vouched for elsewhere
 
 (* a zone is treated as unsigned only on a validated proof of no DS *)
 InsecureOnlyByProof ==
